@@ -23,7 +23,13 @@
 //     D1 a miss is also accepted at the first/last tangential position when the bin's LOR is a tie between detectors
 //     D2 obliqueness of axially truncated / even-span bins is checked at segment level (STIR's documented convention)
 //     D3 blocks geometry: coordinates modulo the orientation of the normalised LOR; no s/phi (anti)symmetry demanded
+//
+// Object histories (c12_history.h): in about half of the generated cases and in two of the three fixed samplings of every predefined
+// scanner the object under test is not constructed directly but DERIVED from another, already used object (clone / SSRB / public
+// setters / create_non_tof_clone, see c12_history.h for the domain).  All clauses then run on the derived object, and it must
+// equal (operator==) and answer identically to the fresh twin constructed directly with the final parameters.
 #include "stir_gen.h"
+#include "c12_history.h"
 #include "stir/ProjDataInfoCylindricalNoArcCorr.h"
 #include "stir/ProjDataInfoCylindricalArcCorr.h"
 #include "stir/ProjDataInfoGenericNoArcCorr.h"
@@ -927,14 +933,46 @@ check(const json& c)
     {
       return Result::reject(std::string("construction rejected: ") + e.what());
     }
+  if (c.contains("arc_bin_size"))
+    if (auto p = dynamic_cast<ProjDataInfoCylindricalArcCorr*>(pdi.get()))
+      p->set_tangential_sampling(c["arc_bin_size"].get<float>());
+  // ---- object history: the object under test is derived from another, used object; pdi (constructed directly) is its fresh twin ----
+  if (c.contains("hist") && c["hist"].is_object())
+    {
+      const json& h = c["hist"];
+      shared_ptr<ProjDataInfo> fresh = pdi, derived;
+      VF_TRY(vh::derive(derived, sc, h, c["pdi"]["trim"], c.contains("arc_bin_size") ? c["arc_bin_size"] : json()));
+      vh::count_history_classes(h);
+      vh::DiffOpts o;
+      o.ax_stride = c.value("ax_stride", 1);
+      o.view_stride = c.value("view_stride", 1);
+      o.all_pairs = false; // all detector pairs x 4 ring pairs x all TOF indices (C01 does all ring pairs)
+      {
+        const double nd = sc->get_num_detectors_per_ring();
+        const double ntof = fresh->is_tof_data() ? sc->get_max_num_timing_poss() + 3 : 1;
+        o.det_stride = std::max(1, int(std::ceil(nd * nd * 5 * ntof / 2e6)));
+      }
+      VF_TRY(vh::diff_twin(*derived, *fresh, o));
+      if (h.contains("subset"))
+        {
+          const int ns = std::max(1, std::min(h["subset"].value("num_subsets", 1), fresh->get_num_views()));
+          const int first = h["subset"].value("subset", 0) % ns;
+          std::vector<int> views;
+          for (int v = first; v < fresh->get_num_views(); v += ns)
+            views.push_back(v);
+          VF_TRY(vh::check_subset(derived, *fresh, views, o));
+          stats().cls("history: + ProjDataInfoSubsetByView of the derived object");
+        }
+      pdi = derived;
+    }
+  else
+    stats().cls("history: none (fresh object)");
   if (pdi->is_tof_data())
     stats().cls(pdi->get_tof_mash_factor() > 1 ? "tof mashed" : "tof");
   VF_TRY(check_tof(*pdi));
   Result r;
   if (auto p = dynamic_cast<ProjDataInfoCylindricalArcCorr*>(pdi.get()))
     {
-      if (c.contains("arc_bin_size"))
-        p->set_tangential_sampling(c["arc_bin_size"].get<float>());
       stats().cls("cylindrical arc-corrected");
       r = check_arc(*p, c);
     }
@@ -973,6 +1011,7 @@ check(const json& c)
 }
 
 void set_strides(json& c, double budget);
+void add_history(Src& s, json& c, const shared_ptr<Scanner>& sc, int num, int den);
 
 json
 gen_arc(Src& s, int ntang_in)
@@ -984,6 +1023,24 @@ gen_arc(Src& s, int ntang_in)
   a["bin_mode"] = s.chance(1, 4) ? 1 : 0;
   a["bin_rel"] = s.pick(std::vector<double>{ 1., 0.5, 2., 0.3, 3., 1.37, 0.71 });
   return a;
+}
+
+// with probability num/den the object under test gets a history (c12_history.h); a quarter of those additionally a
+// ProjDataInfoSubsetByView of the derived object
+void
+add_history(Src& s, json& c, const shared_ptr<Scanner>& sc, int num, int den)
+{
+  if (!s.chance(num, den))
+    return;
+  json h = vh::gen_history(s, sc, c["pdi"]);
+  if (h.is_null())
+    return;
+  if (s.chance(1, 4))
+    {
+      const int ns = int(s.range(1, 4));
+      h["subset"] = { { "num_subsets", ns }, { "subset", int(s.range(0, ns - 1)) } };
+    }
+  c["hist"] = h;
 }
 
 json
@@ -1021,6 +1078,7 @@ gen(Src& s, int size)
   if (cyl)
     c["arc"] = gen_arc(s, sc->get_max_num_non_arccorrected_bins());
   set_strides(c, 3e6); // generated scanners are small: strides stay 1 except for many TOF bins x many rings
+  add_history(s, c, sc, 1, 2);
   return c;
 }
 
@@ -1144,7 +1202,21 @@ fixed_cases(int tier)
                 c["arc"]["bin_mode"] = 1;
             }
           set_strides(c, budget);
-          v.push_back(c);
+          // object histories, deterministic per scanner: the second sampling (the one with view and TOF mashing) of every scanner and
+          // the first (uncompressed) one of every other scanner are reached through a history, the rest stays fresh (quick tier;
+          // the thorough tier has these samplings both ways)
+          if (ci == 2 || (ci == 1 && t % 2 == 0))
+            {
+              PrngSrc ph(uint64_t(t) * 977 + uint64_t(ci) * 31 + 5);
+              json ch = c;
+              set_strides(ch, budget * 0.5); // (a case with a history costs 2-3 times a fresh one: differential + all clauses)
+              add_history(ph, ch, sc, 1, 1);
+              if (tier == 1)
+                v.push_back(c);
+              v.push_back(ch);
+            }
+          else
+            v.push_back(c);
         }
     }
   return v;
